@@ -1,4 +1,7 @@
 import AkVerif.Lemmas.GhistRepos
+import AkVerif.Lemmas.GhistElig
+import AkVerif.Lemmas.GhistReport
+import AkVerif.Lemmas.GhistPar
 /-!
 # C07 — component builds are reported at the first parent build that ships them
 
@@ -60,6 +63,340 @@ theorem repo_order_total (ids : List Nat) (deps : Nat → List Nat) (hnd : ids.N
   · exact Or.inl ⟨l', h1⟩
   · exact Or.inr h1
 
+/-! ## included_at and bumps
+
+`comps` are the graphs of the component repositories handed to the analysis of a parent repository with history
+`h`; `g` is the parent's graph, `regs` the `included_at` entries it registers in the builds of its components.
+`RbAnc gC x t` — in the component's graph `gC` the build `t` is `x` or has `x` among the builds reachable through
+parent builds: *the version `t` contains the build `x`* (containment relative to the component's report graph; that
+this graph mirrors git ancestry inside one release line is C06's subject and is not re-proved here). -/
+
+/-- **partial** (C07.included_first) — the registration loop records a component build `x` as included at
+(parent, branch, build number) exactly for the reported builds `b` of that branch whose bump of the component has a
+new version `t` that contains `x` while none of the previous versions `f ∈ from_rbuilds` — the versions contained in
+the parent builds of `b`, see `bumps_recorded` — contains it.  This holds for every shape of the component's build
+graph (after the repair 88b742a).
+Missing for the full statement: (1) that the parent builds `RB.parents` found by `_find_new_rcommits_in_build` are
+the nearest reported builds below `b` in git ancestry, so that "previous versions" = "versions pinned by the earlier
+builds of the branch"; (2) that `bn_map` sends a pinned version to the latest reported component build it contains. -/
+theorem included_first_partial (comps : List (Nat × Graph Bumps)) (repo : Nat) (g : Graph Bumps) (regs : List Reg)
+    (hregs : registrations repo comps g = .ok regs) (r : Reg) :
+    r ∈ regs ↔ ∃ rb ∈ g.branches, ∃ cg ∈ comps, ∃ b ∈ rb.rbuilds, b.bn ≠ fakeNM ∧
+      ∃ bump t, b.bumps.lookup cg.1 = some bump ∧ bump.toRb = some t ∧
+        RbAnc cg.2 r.iid t ∧ (∀ f ∈ bump.fromRbs, ¬ RbAnc cg.2 r.iid f) ∧
+        r = ⟨cg.1, r.iid, repo, rb.name, b.bn⟩ := by
+  rw [mem_registrations hregs r]
+  constructor
+  · rintro ⟨rb, hrb, cg, hcg, b, hb, l, hl, hrl⟩
+    have hshape : r = ⟨cg.1, r.iid, repo, rb.name, b.bn⟩ := by
+      unfold regsOfBuild at hl
+      split at hl
+      · cases hl; cases hrl
+      · split at hl
+        · cases hl; cases hrl
+        · split at hl
+          · cases hl
+          · cases hl
+            obtain ⟨x, _, rfl⟩ := List.mem_map.mp hrl
+            rfl
+    rw [hshape] at hrl
+    obtain ⟨hnm, bump, t, h1, h2, h3, h4⟩ := (regsOfBuild_mem hl r.iid).mp hrl
+    exact ⟨rb, hrb, cg, hcg, b, hb, hnm, bump, t, h1, h2, h3, h4, hshape⟩
+  · rintro ⟨rb, hrb, cg, hcg, b, hb, hnm, bump, t, h1, h2, h3, h4, hshape⟩
+    -- the registration of this build does not fail: it is part of a successful run
+    have hok : ∃ l, regsOfBuild repo rb.name cg.1 cg.2 b = .ok l := by
+      unfold registrations at hregs
+      cases hx : regsOfBuild repo rb.name cg.1 cg.2 b with
+      | ok l => exact ⟨l, rfl⟩
+      | error e =>
+        exfalso
+        have hmem : regsOfBuild repo rb.name cg.1 cg.2 b ∈ (g.branches.flatMap fun rb =>
+            comps.flatMap fun cg => (sortBy (fun a b : RB Bumps => a.iid < b.iid) rb.rbuilds).map fun b =>
+              regsOfBuild repo rb.name cg.1 cg.2 b) := by
+          simp only [List.mem_flatMap, List.mem_map]
+          exact ⟨rb, hrb, cg, hcg, b, (mem_sortBy _ _ _).mpr hb, rfl⟩
+        rw [hx] at hmem
+        have : ∀ (l : List (Except Err (List Reg))) (e : Err), .error e ∈ l → ∀ out, concatM l ≠ .ok out := by
+          intro l
+          induction l with
+          | nil => intro e he; cases he
+          | cons a l ih =>
+            intro e he out hc
+            simp only [concatM] at hc
+            rcases List.mem_cons.mp he with h5 | h5
+            · subst h5; simp at hc
+            · cases a with
+              | error e' => simp at hc
+              | ok xs =>
+                cases hcl : concatM l with
+                | error e' => rw [hcl] at hc; simp at hc
+                | ok ys => exact ih e h5 ys hcl
+        exact this _ e hmem regs hregs
+    obtain ⟨l, hl⟩ := hok
+    refine ⟨rb, hrb, cg, hcg, b, hb, l, hl, ?_⟩
+    rw [hshape]
+    exact (regsOfBuild_mem hl r.iid).mpr ⟨hnm, bump, t, h1, h2, h3, h4⟩
+
+section
+variable (comps : List (Nat × Graph Bumps)) (h : Hist Pins) (hT : h.Topo) (g : Graph Bumps)
+variable (hg : rgraph h (mkPlug comps) = .ok g)
+include hT hg
+
+/-- the bumps stored in a build are the ones `_mk_bumps_info` computes from the pins of the build's commit and the
+bumps of its parent builds: for each component, `from_rbuilds` are the component builds the parent builds contain
+(their `to_rbuild`, or their own `from_rbuilds` when they pin an unknown version), `to_buildnum` is the pinned version
+and `to_rbuild` its entry in the component's `bn_map` — or, for a version unknown there, the newest build in
+`from_rbuilds` -/
+theorem bumps_recorded :
+    ∀ b ∈ g.builds, ∃ rc cm pbs, g.rcs[b.iid]? = some rc ∧ h.commits[rc.commit]? = some cm ∧
+      Resolved g.builds b.parents pbs ∧
+      ∀ comp bump, (comp, bump) ∈ b.bumps → ∃ gC v, (comp, gC) ∈ relevantComps comps ∧
+        cm.pins.lookup comp = some v ∧ bump.toBn = ⟨v.1, v.2.1, v.2.2, v.2.2⟩ ∧
+        (∀ x, x ∈ bump.fromRbs ↔ ∃ pb ∈ pbs, ∃ b0, pb.bumps.lookup comp = some b0 ∧
+          (b0.toRb = some x ∨ (b0.toRb = none ∧ x ∈ b0.fromRbs))) ∧
+        ((∃ e, gC.bnMapAll.lookup bump.toBn = some e ∧ bump.toRb = some e.2) ∨
+         (gC.bnMapAll.lookup bump.toBn = none ∧
+           ((bump.fromRbs = [] ∧ bump.toRb = none) ∨ ∃ m, maxOf bump.fromRbs = some m ∧ bump.toRb = some m))) := by
+  intro b hb
+  obtain ⟨rc, cm, pbs, h1, h2, h3, h4⟩ := (rgraph_bumpsOk hT hg).1 b hb
+  refine ⟨rc, cm, pbs, h1, h2, h3, ?_⟩
+  intro comp bump hm
+  simp only [mkPlug] at h4
+  obtain ⟨gC, v, h5, h6, h7⟩ := mkBumps_mem h4 comp bump hm
+  obtain ⟨h8, h9, h10⟩ := mkBump_spec h7
+  refine ⟨gC, v, (mem_sortBy _ _ _).mp h5, h6, h9, ?_, h10⟩
+  intro x
+  rw [h8, mem_fromSet]
+  simp only [List.mem_map]
+  constructor
+  · rintro ⟨_, ⟨pb, hpb, rfl⟩, b0, hb0⟩; exact ⟨pb, hpb, b0, hb0⟩
+  · rintro ⟨pb, hpb, b0, hb0⟩; exact ⟨_, ⟨pb, hpb, rfl⟩, b0, hb0⟩
+
+/-- the version pinned by a parent build is one of the previous versions (`from_rbuilds`) of the build -/
+theorem parent_version_in_from (b1 b2 : RB Bumps) (hb1 : b1 ∈ g.builds) (hb2 : b2 ∈ g.builds)
+    (hpar : b1.iid ∈ b2.parents) (comp : Nat) (bump1 bump2 : Bump) (t1 : Nat)
+    (h1 : b1.bumps.lookup comp = some bump1) (ht1 : bump1.toRb = some t1)
+    (h2 : b2.bumps.lookup comp = some bump2) : t1 ∈ bump2.fromRbs := by
+  obtain ⟨rc, cm, pbs, _, _, hres, hall⟩ := bumps_recorded comps h hT g hg b2 hb2
+  obtain ⟨gC', v, _, _, _, hfrom, _⟩ := hall comp bump2 (lookup_some_mem h2)
+  rw [hfrom]
+  -- `b1` is among the resolved parent builds: ids of builds are unique
+  have hinc := (rgraph_facts hT hg).bldInc
+  have hb1res : b1 ∈ pbs := by
+    clear hall hfrom
+    generalize b2.parents = is at hres hpar
+    induction hres with
+    | nil => cases hpar
+    | @cons i pb is' pbs' hm hi _ ih =>
+      rcases List.mem_cons.mp hpar with h5 | h5
+      · have : pb = b1 := by
+          have e1 := build?_of_mem (rp := { (Repo.empty : Repo Bumps) with builds := g.builds }) hinc hm
+          have e2 := build?_of_mem (rp := { (Repo.empty : Repo Bumps) with builds := g.builds }) hinc hb1
+          rw [hi, ← h5] at e1
+          rw [e1] at e2
+          exact Option.some.inj e2
+        rw [this]; simp
+      · exact List.mem_cons_of_mem _ (ih h5)
+  exact ⟨b1, hb1res, bump1, h1, Or.inl ht1⟩
+
+/-- `b1` lies below `b2` along parent builds -/
+inductive BuildChain (builds : List (RB Bumps)) : RB Bumps → RB Bumps → Prop
+  | one {b1 b2 : RB Bumps} : b1 ∈ builds → b2 ∈ builds → b1.iid ∈ b2.parents → BuildChain builds b1 b2
+  | step {b1 bm b2 : RB Bumps} : BuildChain builds b1 bm → b2 ∈ builds → bm.iid ∈ b2.parents →
+      BuildChain builds b1 b2
+
+/-- **partial** (C07.included_only_first) — "and at no other parent build": a component build contained in the
+version pinned by a build `b1` is not registered again by any build `b2` above `b1` along parent builds.
+Hypotheses (the property's quantifier, stated on the recorded bumps): every build of the parent pins a version of the
+component known to its `bn_map` (`hpin`), and the pinned version never decreases along a path, read as containment —
+the new version contains every previous version (`hmono`).
+Missing: (1), (2) of `included_first_partial`, to identify "above along parent builds" with "later build of the branch
+in git ancestry". -/
+theorem included_only_first_partial (comp : Nat) (gC : Graph Bumps)
+    (hpin : ∀ b ∈ g.builds, ∃ bump t, b.bumps.lookup comp = some bump ∧ bump.toRb = some t)
+    (hmono : ∀ b ∈ g.builds, ∀ bump t, b.bumps.lookup comp = some bump → bump.toRb = some t →
+      ∀ f ∈ bump.fromRbs, RbAnc gC f t)
+    (b1 b2 : RB Bumps) (hch : BuildChain g.builds b1 b2) (bump1 : Bump) (t1 : Nat)
+    (h1 : b1.bumps.lookup comp = some bump1) (ht1 : bump1.toRb = some t1)
+    (repo : Nat) (name : List Char) (l : List Reg)
+    (hl : regsOfBuild repo name comp gC b2 = .ok l) (x : Nat) (hx : RbAnc gC x t1) :
+    (⟨comp, x, repo, name, b2.bn⟩ : Reg) ∉ l := by
+  -- along the chain `x` stays contained in a previous version of every build, hence in its version
+  have key : ∀ {b2 : RB Bumps}, BuildChain g.builds b1 b2 →
+      ∃ bump2 t2, b2.bumps.lookup comp = some bump2 ∧ bump2.toRb = some t2 ∧
+        (∃ f ∈ bump2.fromRbs, RbAnc gC x f) ∧ RbAnc gC x t2 := by
+    intro b2 hc
+    induction hc with
+    | one hb1 hb2 hpar =>
+      obtain ⟨bump2, t2, h2, ht2⟩ := hpin _ hb2
+      have hin := parent_version_in_from comps h hT g hg _ _ hb1 hb2 hpar comp bump1 bump2 t1 h1 ht1 h2
+      exact ⟨bump2, t2, h2, ht2, ⟨t1, hin, hx⟩, RbAnc.trans hx (hmono _ hb2 bump2 t2 h2 ht2 t1 hin)⟩
+    | step hc' hb2 hpar ih =>
+      rename_i bm b2'
+      obtain ⟨bumpm, tm, hm1, hm2, _, hxm⟩ := ih
+      have hbm : bm ∈ g.builds := by
+        cases hc' with
+        | one _ h _ => exact h
+        | step _ h _ => exact h
+      obtain ⟨bump2, t2, h2, ht2⟩ := hpin _ hb2
+      have hin := parent_version_in_from comps h hT g hg _ _ hbm hb2 hpar comp bumpm bump2 tm hm1 hm2 h2
+      exact ⟨bump2, t2, h2, ht2, ⟨tm, hin, hxm⟩, RbAnc.trans hxm (hmono _ hb2 bump2 t2 h2 ht2 tm hin)⟩
+  obtain ⟨bump2, t2, h2, _, ⟨f, hf, hxf⟩, _⟩ := key hch
+  intro hin
+  obtain ⟨_, bump, t, h3, _, _, h4⟩ := (regsOfBuild_mem hl x).mp hin
+  rw [h2] at h3; cases h3
+  exact h4 f hf hxf
+
+/-- the parent builds recorded in a build are the nearest builds of the same branch below it in git ancestry
+(this is (1) of `included_first_partial`, proved for every history) -/
+theorem parent_builds_nearest : ∀ rb ∈ g.all, BrPar h g.rcs rb := rgraph_par hT hg
+
+/-- **partial** (C07.included_first / included_only_first, spec level on the parent side) — for a reported build
+`bd` of a parent branch, at commit `e`, whose pinned version of the component is `t`: a component build `x` is
+registered at `bd` exactly when `t` contains `x` and no *reported* build of the branch that is a proper git ancestor
+of `e` pins a version that contains `x` — `bd` is the first reported build of the branch that ships `x`.
+Hypotheses (the quantifier): every reported build of the branch pins a version of the component that is known to its
+`bn_map` (`hpin`), and along git ancestry the pinned version never decreases, read as containment (`hmono`).
+Missing for the full statement: eligible commits that are *not* reported (they have trivial bumps, see
+`bump_build_reported_partial`, so their version is the one of the nearest reported build below — not yet carried to
+this theorem), and the meaning of `RbAnc` / `bn_map` in terms of the component's git history. -/
+theorem included_first_reported_partial (rb : RBranch Bumps) (hrb : rb ∈ g.all) (comp : Nat) (gC : Graph Bumps)
+    (hpin : ∀ bx ∈ rb.rbuilds, ∀ ex, BuildAt g.rcs bx ex →
+      ∃ bump t, bx.bumps.lookup comp = some bump ∧ bump.toRb = some t)
+    (hmono : ∀ bp ∈ rb.rbuilds, ∀ bq ∈ rb.rbuilds, ∀ ep eq, BuildAt g.rcs bp ep → BuildAt g.rcs bq eq →
+      Anc h ep eq → ∀ bumpp tp bumpq tq, bp.bumps.lookup comp = some bumpp → bumpp.toRb = some tp →
+        bq.bumps.lookup comp = some bumpq → bumpq.toRb = some tq → RbAnc gC tp tq)
+    (bd : RB Bumps) (hbd : bd ∈ rb.rbuilds) (e : Nat) (hbe : BuildAt g.rcs bd e) (hbn : bd.bn ≠ fakeNM)
+    (bump : Bump) (t : Nat) (hb1 : bd.bumps.lookup comp = some bump) (hb2 : bump.toRb = some t)
+    (repo : Nat) (l : List Reg) (hl : regsOfBuild repo rb.name comp gC bd = .ok l) (x : Nat) :
+    (⟨comp, x, repo, rb.name, bd.bn⟩ : Reg) ∈ l ↔
+      RbAnc gC x t ∧ ∀ bp ∈ rb.rbuilds, ∀ ep, BuildAt g.rcs bp ep → ep ≠ e → Anc h ep e →
+        ∀ bumpp tp, bp.bumps.lookup comp = some bumpp → bumpp.toRb = some tp → ¬ RbAnc gC x tp := by
+  have hpar := parent_builds_nearest comps h hT g hg rb hrb bd hbd e hbe
+  have hinb : ∀ bx ∈ rb.rbuilds, ∀ ex, BuildAt g.rcs bx ex → bx ∈ g.builds := by
+    intro bx hbx ex hex
+    exact (rgraph_bumpsOk hT hg).2 rb hrb bx hbx (by rw [hex.1]; rfl)
+  have hbdg := hinb bd hbd e hbe
+  rw [regsOfBuild_mem hl x]
+  constructor
+  · rintro ⟨_, bump', t', h1, h2, h3, h4⟩
+    rw [hb1] at h1; cases h1
+    rw [hb2] at h2; cases h2
+    refine ⟨h3, ?_⟩
+    intro bp hbp ep hbep hne hanc bumpp tp hp1 hp2 hcontra
+    -- a nearest build `bm` of the branch above `bp` and below `e`
+    have key : ∀ (k : Nat) (bq : RB Bumps) (eq : Nat), bq ∈ rb.rbuilds → BuildAt g.rcs bq eq → eq ≠ e → Anc h eq e →
+        e - eq ≤ k → ∃ bm ∈ rb.rbuilds, ∃ em, BuildAt g.rcs bm em ∧ em ≠ e ∧ Anc h em e ∧ Anc h eq em ∧
+          ∀ br ∈ rb.rbuilds, ∀ er, BuildAt g.rcs br er → er ≠ em → er ≠ e → Anc h er e → ¬ Anc h em er := by
+      intro k
+      induction k with
+      | zero =>
+        intro bq eq _ _ hqe hqa hk
+        have := hqa.le hT
+        exact absurd (by omega) hqe
+      | succ k ih =>
+        intro bq eq hbq hbeq hqe hqa hk
+        classical
+        by_cases hmax : ∀ br ∈ rb.rbuilds, ∀ er, BuildAt g.rcs br er → er ≠ eq → er ≠ e → Anc h er e → ¬ Anc h eq er
+        · exact ⟨bq, hbq, eq, hbeq, hqe, hqa, .refl _, hmax⟩
+        · have : ∃ br ∈ rb.rbuilds, ∃ er, BuildAt g.rcs br er ∧ er ≠ eq ∧ er ≠ e ∧ Anc h er e ∧ Anc h eq er := by
+            apply Classical.byContradiction
+            intro hno
+            apply hmax
+            intro br hbr er hber h5 h6 h7 h8
+            exact hno ⟨br, hbr, er, hber, h5, h6, h7, h8⟩
+          obtain ⟨br, hbr, er, hber, h5, h6, h7, h8⟩ := this
+          have hlt : eq < er := by
+            have := h8.le hT
+            rcases Nat.lt_or_ge eq er with h9 | h9
+            · exact h9
+            · exact absurd (by omega) h5
+          have hle := h7.le hT
+          obtain ⟨bm, hbm, em, h10, h11, h12, h13, h14⟩ := ih br er hbr hber h6 h7 (by omega)
+          exact ⟨bm, hbm, em, h10, h11, h12, h8.trans h13, h14⟩
+    obtain ⟨bm, hbm, em, hbem, hme, hma, hpm, hmmax⟩ := key (e - ep) bp ep hbp hbep hne hanc (Nat.le_refl _)
+    have hmpar : bm.iid ∈ bd.parents := (hpar.2 bm.iid).mpr ⟨bm, hbm, rfl, em, hbem, hme, hma, hmmax⟩
+    obtain ⟨bumpm, tm, hm1, hm2⟩ := hpin bm hbm em hbem
+    have hin := parent_version_in_from comps h hT g hg bm bd (hinb bm hbm em hbem) hbdg hmpar comp bumpm bump tm
+      hm1 hm2 hb1
+    have hcont := hmono bp hbp bm hbm ep em hbep hbem hpm bumpp tp bumpm tm hp1 hp2 hm1 hm2
+    exact h4 tm hin (RbAnc.trans hcontra hcont)
+  · rintro ⟨h3, h4⟩
+    refine ⟨hbn, bump, t, hb1, hb2, h3, ?_⟩
+    intro f hf hxf
+    -- `f` is the version of a parent build, which is a reported build of the branch below `e`
+    obtain ⟨rc, cm, pbs, _, _, hres, hall⟩ := bumps_recorded comps h hT g hg bd hbdg
+    obtain ⟨gC', v, _, _, _, hfrom, _⟩ := hall comp bump (lookup_some_mem hb1)
+    obtain ⟨pb, hpb, b0, hb0, hcase⟩ := (hfrom f).mp hf
+    -- `pb` is one of the resolved parent builds
+    have hpbpar : pb.iid ∈ bd.parents ∧ pb ∈ g.builds := by
+      clear hall hfrom
+      generalize bd.parents = is at hres
+      induction hres with
+      | nil => cases hpb
+      | @cons i pb' is' pbs' hm hi _ ih =>
+        rcases List.mem_cons.mp hpb with h5 | h5
+        · subst h5; exact ⟨by simp [hi], hm⟩
+        · obtain ⟨h6, h7⟩ := ih h5
+          exact ⟨List.mem_cons_of_mem _ h6, h7⟩
+    obtain ⟨bp, hbp, hbpi, ep, hbep, hne, hanc, _⟩ := (hpar.2 pb.iid).mp hpbpar.1
+    have hinc := (rgraph_facts hT hg).bldInc
+    have hbpg := hinb bp hbp ep hbep
+    have hpbeq : pb = bp := by
+      have e1 := build?_of_mem (rp := { (Repo.empty : Repo Bumps) with builds := g.builds }) hinc hpbpar.2
+      have e2 := build?_of_mem (rp := { (Repo.empty : Repo Bumps) with builds := g.builds }) hinc hbpg
+      rw [hbpi] at e2
+      rw [e1] at e2
+      exact Option.some.inj e2
+    subst hpbeq
+    obtain ⟨bumpp, tp, hp1, hp2⟩ := hpin pb hbp ep hbep
+    rw [hb0] at hp1; cases hp1
+    rcases hcase with h5 | ⟨h5, _⟩
+    · rw [hp2] at h5; cases h5
+      exact h4 pb hbp ep hbep hne hanc b0 f hb0 hp2 hxf
+    · rw [hp2] at h5; cases h5
+
+/-- **partial** (C07.bump_build_reported) — every eligible commit of a branch (tagged or head, reachable from the
+head, not part of a lower-sorted branch) is a build of the branch in the report, unless it does not match and all the
+bumps computed for it — from its pins and the bumps of the at most one parent build found — are trivial (the pinned
+version's latest reported build is the one the parent build already contains): a parent build whose pin moves
+across report-related component builds is reported even without a matching commit of its own.
+Missing: (1) of `included_first_partial` — that the parent build found is the nearest reported build below. -/
+theorem bump_build_reported_partial (j : Nat) (b : Branch) (rb : RBranch Bumps)
+    (hb : (branchesOf h)[j]? = some b) (hrb : g.all[j]? = some rb) (e : Nat)
+    (he : SpecBuild h ((branchesOf h).take j) b e) :
+    (∃ bd ∈ rb.rbuilds, bd.rcommit = some bd.iid ∧ ∃ rc, g.rcs[bd.iid]? = some rc ∧ rc.commit = e) ∨
+    (h.isMatch e = false ∧
+      (relevantComps comps = [] ∨
+       ∃ (cm : Commit Pins) (pbs : List (RB Bumps)) (bumps : Bumps), h.commits[e]? = some cm ∧ pbs.length ≤ 1 ∧
+         (∀ pb ∈ pbs, pb ∈ g.builds) ∧
+         mkBumps (sortBy (fun a b => a.1 < b.1) (relevantComps comps)) cm.pins (pbs.map (·.bumps)) = .ok bumps ∧
+         ∀ cb ∈ bumps, cb.2.trivial = true)) := by
+  rcases rgraph_elig hT hg j b rb hb hrb e he with h1 | ⟨h1, h2⟩
+  · exact Or.inl h1
+  · right
+    refine ⟨h1, ?_⟩
+    rcases h2 with h2 | ⟨cm, pbs, bumps, h3, h4, h5, h6, h7⟩
+    · left
+      simp only [mkPlug, Bool.not_eq_eq_eq_not, Bool.not_false] at h2
+      have hemp : (sortBy (fun a b : Nat × Graph Bumps => decide (a.1 < b.1)) (relevantComps comps)) = [] := by
+        simpa using h2
+      have := (sortBy_perm (fun a b : Nat × Graph Bumps => decide (a.1 < b.1)) (relevantComps comps)).length_eq
+      rw [hemp] at this
+      exact List.length_eq_zero_iff.mp this.symm
+    · right
+      refine ⟨cm, pbs, bumps, h3, h4, h5, h6, ?_⟩
+      intro cb hcb
+      simp only [mkPlug] at h7
+      cases hct : cb.2.trivial with
+      | true => rfl
+      | false =>
+        have : (bumps.any fun cb => !cb.2.trivial) = true :=
+          List.any_eq_true.mpr ⟨cb, hcb, by simp [hct]⟩
+        rw [this] at h7; cases h7
+
+end
+
 /-! Non-vacuity: `app(0) → lib(2), util(4)`, `lib → util` is ordered `util, lib, app` from every supply order;
 `app → lib → app` and a self-dependency are rejected. -/
 example : sortRepos [0, 2, 4] (fun i => if i = 0 then [2, 4, 9] else if i = 2 then [4] else []) = .ok [4, 2, 0] := by
@@ -68,5 +405,23 @@ example : sortRepos [4, 0, 2] (fun i => if i = 0 then [2, 4, 9] else if i = 2 th
   decide
 example : sortRepos [0, 2] (fun i => if i = 0 then [2] else [0]) = .error .valueError := by decide
 example : sortRepos [3] (fun _ => [3]) = .error .valueError := by decide
+
+/-! Non-vacuity of the included_at part: a component whose history has a diamond of reported builds
+(10.20.1 ← 10.20.2, 10.20.3 ← 10.20.4; report commits numbered 0, 2, 1, 3 by the DFS) and a parent that pins 10.20.2
+at build 5.1.1 and 10.20.4 at build 5.1.2: the first build ships 10.20.1 and 10.20.2, the second one only what is
+new (10.20.3, 10.20.4) — the diamond does not make 10.20.1 appear again. -/
+def exLib : Hist Pins :=
+  { commits := [⟨[], [⟨10, 20, 1, 1⟩], true, []⟩, ⟨[0], [⟨10, 20, 2, 2⟩], true, []⟩, ⟨[0], [⟨10, 20, 3, 3⟩], true, []⟩,
+                ⟨[1, 2], [⟨10, 20, 4, 4⟩], false, []⟩],
+    remote := "origin".toList, refs := [("origin/release/10.20".toList, 3)] }
+
+def exApp : Hist Pins :=
+  { commits := [⟨[], [⟨5, 1, 1, 1⟩], false, [(2, (10, 20, 2))]⟩, ⟨[0], [⟨5, 1, 2, 2⟩], false, [(2, (10, 20, 4))]⟩],
+    remote := "origin".toList, refs := [("origin/release/5.1".toList, 1)] }
+
+example : (analyse [⟨0, [2], exApp⟩, ⟨2, [], exLib⟩]).map (fun r => (r.1.map (·.id), r.2)) = .ok ([2, 0],
+    [⟨2, 0, 0, "release/5.1".toList, ⟨5, 1, 1, 1⟩⟩, ⟨2, 2, 0, "release/5.1".toList, ⟨5, 1, 1, 1⟩⟩,
+     ⟨2, 1, 0, "release/5.1".toList, ⟨5, 1, 2, 2⟩⟩, ⟨2, 3, 0, "release/5.1".toList, ⟨5, 1, 2, 2⟩⟩]) := by
+  decide +kernel
 
 end C07
